@@ -2,7 +2,7 @@
 (* S-specification for C18: "each accepted veriT (Alethe) proof step is a logical consequence of its premises".      *)
 (*                                                                                                                   *)
 (* Reference rule semantics: for every rule a SCHEMA = the set of its intended instances over small formula pools     *)
-(* (R_<rule> below, written from the Alethe rule statements, not from the code).  An instance is                      *)
+(* (R_<rule> in C18_Rules.tla, written from the Alethe rule statements, not from the code).  An instance is         *)
 (*     [rule, mut, prems = <<[h,c]..>>, cl = <<literals>>, x = [sizes, coeffs, inst, ctx]]                            *)
 (* The machine: a proof state db (set of derived sequents) and a pending candidate step.  Init chooses ANY candidate  *)
 (* step: an intended instance or a NEAR MISS of one (a literal dropped / added / negated / swapped, a premise dropped  *)
